@@ -17,4 +17,18 @@
  * times by the loop-contract transformation and multiplies the size of the array encoding) */
 char vg_sp_c;
 
+/* ---- tok.c (tier P): the str and list classes are the environment of spif_tok_eval ---------------
+ * spif_tok_eval touches its token strings only through str methods and its list only through list
+ * methods.  In the P unit those callees are represented by the contracts below (replace).  The
+ * contracts expose the abstract state of a str (len, size, s != NULL); the character buffer is owned
+ * by the str object (stated assumption: no client holds a pointer into the buffer of a str it passes
+ * to a mutating method -- true for tmp in spif_tok_eval; the buffer discipline itself is C01's). */
+#define VSTR_SZ sizeof(struct spif_str_t_struct)
+#define STRV(p) ((p)->s != NULL && 0 <= (p)->len && (p)->len < (p)->size)
+/* ghost: number of tokens appended to the (abstract) token list; offset at which the current token began;
+ * quote state at the top of the current outer iteration; whether the character at the loop head is a delimiter */
+size_t vg_sp_cnt;
+char vg_sp_q;
+int vg_sp_d;
+
 #endif
